@@ -10,10 +10,10 @@ def make_case(seed, dm, **genkw):
     return ch, hist
 
 
-def ref_run(ch, hist, pend=0):
+def ref_run(ch, hist, pend=0, cancel_end=False):
     ref = refscxml.Ref(ch)
     try:
-        ref.interpret(hist, pend)
+        ref.interpret(hist, pend, cancel_end)
     except RecursionError:
         ref.diverged = True
     return ref
